@@ -51,6 +51,9 @@ fn alphabet(sp: &il::Scalar) -> Alphabet {
         il::Operation::assign(sp.clone(), E::sub(s(), c(4)).unwrap()),
         il::Operation::assign(sp.clone(), E::add(s(), c(8)).unwrap()),
         il::Operation::assign(sp.clone(), E::sub(s(), c(0x1000)).unwrap()),
+        // frames at and beyond 2 GiB: the offset is a signed quantity of the stack pointer's width
+        il::Operation::assign(sp.clone(), E::sub(s(), c(0x8000_0000)).unwrap()),
+        il::Operation::assign(sp.clone(), E::sub(s(), c(0x1_0000_0000)).unwrap()),
         il::Operation::assign(sp.clone(), E::add(E::sub(s(), c(4)).unwrap(), c(8)).unwrap()),
         il::Operation::assign(sp.clone(), E::and(s(), il::Constant::new(!15u64, w).into()).unwrap()),
         il::Operation::assign(sp.clone(), E::xor(s(), s()).unwrap()),
